@@ -1,11 +1,12 @@
 (* C08 - only an event's author can delete it (NIP-09).
-   Assembled by tools/gen_props.py from Props/SQLM.v: property theorems only
+   Assembled by tools/gen_props.py from Props/SQLM.v, Props/KVW.v: property theorems only
    (statement, `exact`, Print Assumptions); the proofs live in the backend model directories.
    Each backend's theorems sit in their own module so that equally named definitions of the two
    backend models cannot shadow one another. *)
 From NR Require Lib.Base Lib.Nip01 SQLM.Rel SQLM.Write SQLM.Query SQLM.Text SQLM.Where SQLM.Req SQLM.Spec SQLM.Proofs_Text SQLM.Proofs_Shape SQLM.Proofs_Rel SQLM.Proofs_Write SQLM.Proofs_Gc SQLM.Proofs_Where SQLM.Proofs_Hist SQLM.Abbrev SQLM.Proofs_Const SQLM.Proofs_SaText SQLM.Thm_C09 SQLM.Thm_C08 SQLM.Thm_C17 SQLM.Thm_C07 SQLM.Thm_C06 SQLM.Thm_C01 SQLM.Thm_C12 SQLM.Thm_C02 SQLM.Thm_C11 SQLM.Run.
 From NR Require Gen.SqlConst Gen.Kinds.
 From Coq Require Sorting.Permutation.
+From NR Require KVW.Thm_C06 Lib.BaseFacts KVW.Thm_Common KVW.Queue KVW.Thm_C07 KVW.Thm_C08 KVW.Thm_C09 KVW.Thm_C17 KVW.Thm_Common Lib.Base Lib.Nip01 KVM.Engine KVM.Keys KVM.Scan KVW.Types KVW.Entries KVW.Write KVW.PostSave KVW.Gc KVW.Oracles KVW.Proofs_Engine KVW.Proofs_Tx KVW.Proofs_Keys KVW.Proofs_Coherent KVW.Proofs_Run KVW.Proofs_Fault KVW.Proofs_ScanUse KVW.Proofs_ScanOk KVW.Proofs_PostSave KVW.Proofs_Progress KVW.Proofs_Gc KVW.Proofs_Ack KVW.GenTie.
 
 (* ================= SQL backend (nostr_relay/storage/db.py) ================= *)
 Module SQLM.
@@ -76,3 +77,109 @@ Example SQLM_history_inhabited :
 Proof. vm_compute. repeat split; reflexivity. Qed.
 
 End SQLM.
+
+(* ================= LMDB write path (kv.py indexes, writer thread, garbage collector) ================= *)
+Module KVW.
+Import KVW.Thm_C06 Lib.BaseFacts KVW.Thm_Common KVW.Queue KVW.Thm_C07 KVW.Thm_C08 KVW.Thm_C09 KVW.Thm_C17 KVW.Thm_Common Lib.Base Lib.Nip01 KVM.Engine KVM.Keys KVM.Scan KVW.Types KVW.Entries KVW.Write KVW.PostSave KVW.Gc KVW.Oracles KVW.Proofs_Engine KVW.Proofs_Tx KVW.Proofs_Keys KVW.Proofs_Coherent KVW.Proofs_Run KVW.Proofs_Fault KVW.Proofs_ScanUse KVW.Proofs_ScanOk KVW.Proofs_PostSave KVW.Proofs_Progress KVW.Proofs_Gc KVW.Proofs_Ack KVW.GenTie.
+Open Scope list_scope. Open Scope Z_scope.
+
+Theorem C08_kv_delete fault kill now d w idb d' ms :
+  Inv d -> event_wf w -> id_bytes w = Some idb -> rec_at d idb = None -> w_kind w = 5 ->
+  run_op fault kill now d (OAdd w) = (d', Committed, ms) ->
+  Inv d' /\
+  (exists r, encode_event w = Some r /\ rec_at d' idb = Some r) /\
+  (* delete_frame: only referenced events of the deleter's own pubkey, older than the deletion *)
+  (forall x e, rec_at d x = Some e -> rec_at d' x = None ->
+               w_pubkey e = w_pubkey w /\ In x (e_ref_ids w) /\ w_created e < w_created w) /\
+  (* delete_effective *)
+  (forall x e, rec_at d x = Some e -> w_pubkey e = w_pubkey w -> In x (e_ref_ids w) -> w_created e < w_created w ->
+               rec_at d' x = None) /\
+  (forall x e, x <> idb -> rec_at d' x = Some e -> rec_at d x = Some e).
+Proof. exact (C08_kv_delete fault kill now d w idb d' ms). Qed.
+Print Assumptions C08_kv_delete.
+
+(* deleted_unreachable: once the record is gone, no index entry names it (so no scanner can yield it)
+   and get_event finds nothing *)
+Theorem C08_kv_deleted_unreachable d x :
+  Inv d -> rec_at d x = None -> length x = 32%nat ->
+  (forall k, k <> tombstone -> tail32 k = x -> get k d = None) /\
+  (forall now h, py_fromhex h = Some x -> get_event now d h = GNone).
+Proof. exact (C08_kv_deleted_unreachable d x). Qed.
+Print Assumptions C08_kv_deleted_unreachable.
+
+(* ---- supporting theorems of this backend model (invariants, ties to the source, non-vacuity) ---- *)
+Theorem NoDup_app_single (valid : wevent -> bool) (valid_hex : forall w, valid w = true -> hex64 (w_id w) = true /\ hex64 (w_pubkey w) = true) {A} (l : list A) x :
+  NoDup l -> ~ In x l -> NoDup (l ++ [x]).
+Proof. first [exact (NoDup_app_single valid valid_hex l x) | exact (NoDup_app_single valid l x) | exact (NoDup_app_single valid_hex l x) | exact (NoDup_app_single l x)]. Qed.
+Print Assumptions NoDup_app_single.
+
+Theorem add_ids_app (valid : wevent -> bool) (valid_hex : forall w, valid w = true -> hex64 (w_id w) = true /\ hex64 (w_pubkey w) = true) q1 q2 :
+  add_ids (q1 ++ q2) = add_ids q1 ++ add_ids q2.
+Proof. first [exact (add_ids_app valid valid_hex q1 q2) | exact (add_ids_app valid q1 q2) | exact (add_ids_app valid_hex q1 q2) | exact (add_ids_app q1 q2)]. Qed.
+Print Assumptions add_ids_app.
+
+Theorem queued_ids_inflight (valid : wevent -> bool) (valid_hex : forall w, valid w = true -> hex64 (w_id w) = true /\ hex64 (w_pubkey w) = true) d infl q :
+  Forall (queued_ok d infl) q -> forall x, In x (add_ids q) -> In x infl.
+Proof. first [exact (queued_ids_inflight valid valid_hex d infl q) | exact (queued_ids_inflight valid d infl q) | exact (queued_ids_inflight valid_hex d infl q) | exact (queued_ids_inflight d infl q)]. Qed.
+Print Assumptions queued_ids_inflight.
+
+Theorem queued_ok_weaken (valid : wevent -> bool) (valid_hex : forall w, valid w = true -> hex64 (w_id w) = true /\ hex64 (w_pubkey w) = true) d infl x op :
+  queued_ok d infl op -> queued_ok d (x :: infl) op.
+Proof. first [exact (queued_ok_weaken valid valid_hex d infl x op) | exact (queued_ok_weaken valid d infl x op) | exact (queued_ok_weaken valid_hex d infl x op) | exact (queued_ok_weaken d infl x op)]. Qed.
+Print Assumptions queued_ok_weaken.
+
+(* a transaction never makes a record appear under another id than the one it adds *)
+Theorem odel_no_new (valid : wevent -> bool) (valid_hex : forall w, valid w = true -> hex64 (w_id w) = true /\ hex64 (w_pubkey w) = true) fault kill now d h x e :
+  Coh d -> rec_at (db_after fault kill now d (ODel h)) x = Some e -> rec_at d x = Some e.
+Proof. first [exact (odel_no_new valid valid_hex fault kill now d h x e) | exact (odel_no_new valid fault kill now d h x e) | exact (odel_no_new valid_hex fault kill now d h x e) | exact (odel_no_new fault kill now d h x e)]. Qed.
+Print Assumptions odel_no_new.
+
+Theorem oadd_no_new (valid : wevent -> bool) (valid_hex : forall w, valid w = true -> hex64 (w_id w) = true /\ hex64 (w_pubkey w) = true) fault kill now d w idb x e :
+  Coh d -> event_wf w -> id_bytes w = Some idb -> rec_at d idb = None ->
+  x <> idb -> rec_at (db_after fault kill now d (OAdd w)) x = Some e -> rec_at d x = Some e.
+Proof. first [exact (oadd_no_new valid valid_hex fault kill now d w idb x e) | exact (oadd_no_new valid fault kill now d w idb x e) | exact (oadd_no_new valid_hex fault kill now d w idb x e) | exact (oadd_no_new fault kill now d w idb x e)]. Qed.
+Print Assumptions oadd_no_new.
+
+Theorem wf_id_bytes_inj (valid : wevent -> bool) (valid_hex : forall w, valid w = true -> hex64 (w_id w) = true /\ hex64 (w_pubkey w) = true) w1 w2 idb :
+  event_wf w1 -> event_wf w2 -> id_bytes w1 = Some idb -> id_bytes w2 = Some idb -> w_id w1 = w_id w2.
+Proof. first [exact (wf_id_bytes_inj valid valid_hex w1 w2 idb) | exact (wf_id_bytes_inj valid w1 w2 idb) | exact (wf_id_bytes_inj valid_hex w1 w2 idb) | exact (wf_id_bytes_inj w1 w2 idb)]. Qed.
+Print Assumptions wf_id_bytes_inj.
+
+Theorem remove_str_In (valid : wevent -> bool) (valid_hex : forall w, valid w = true -> hex64 (w_id w) = true /\ hex64 (w_pubkey w) = true) x y l :
+  In y l -> y <> x -> In y (remove_str x l).
+Proof. first [exact (remove_str_In valid valid_hex x y l) | exact (remove_str_In valid x y l) | exact (remove_str_In valid_hex x y l) | exact (remove_str_In x y l)]. Qed.
+Print Assumptions remove_str_In.
+
+Theorem run_dels_fold now l :
+  forall d0,
+  run_dels now d0 l = fold_left (fun d op => db_after None None now d op) (map (fun b => ODel (hex_of_bytes b)) l) d0.
+Proof. exact (run_dels_fold now l). Qed.
+Print Assumptions run_dels_fold.
+
+Theorem gc_pass_is_gc_ops T now d :
+  gc_pass T now d = fold_left (fun d op => db_after None None now d op) (gc_ops T d) d.
+Proof. exact (gc_pass_is_gc_ops T now d). Qed.
+Print Assumptions gc_pass_is_gc_ops.
+
+Theorem inv_init :
+  Inv init_db.
+Proof. exact (inv_init). Qed.
+Print Assumptions inv_init.
+
+Theorem inv_step d s :
+  Inv d -> op_ok d (s_op s) -> Inv (run_step d s).
+Proof. exact (inv_step d s). Qed.
+Print Assumptions inv_step.
+
+Theorem inv_history l :
+  forall d, Inv d -> steps_ok d l -> Inv (run_steps d l).
+Proof. exact (inv_history l). Qed.
+Print Assumptions inv_history.
+
+Theorem run_op_committed fault kill now d op d' ms :
+  run_op fault kill now d op = (d', Committed, ms) ->
+  exists t', op_body fault now op {| t_db := d; t_log := [] |} = Ok tt t' /\ d' = t_db t'.
+Proof. exact (run_op_committed fault kill now d op d' ms). Qed.
+Print Assumptions run_op_committed.
+
+End KVW.
